@@ -391,6 +391,21 @@ def clause3_batch(ctx, P, cg):
     ctx.ob("C14.3 R-LOOP", rmf, "invalidation-is-unconditional", okr,
            "eventloop_epoll_remove() can return without walking the harvested events (an early exit, e.g. when current_ev was already "
            "cleared by an earlier remove in the same callback): an entry released later in that callback is still dispatched")
+    # ... and it forgets the entry in dispatch only when that very entry is removed: a read callback that removes ANOTHER event
+    # (destroys the timer of a routed request it answers) must not switch off the write dispatch of its own entry - the
+    # edge-triggered writability event is never repeated and the queued output stays where it is
+    cur_stores = [i for i in rmf.all_insts() if i.op == "store" and P.is_null(i.a[0]) and P.term(rmf, i.a[1])[0] == "field" and
+                  P.term(rmf, i.a[1])[3] == "current_ev"]
+    evp = ("param", 1, rmf.params[1]["name"])
+
+    def is_this(atom, pol):
+        return atom[0] == "cmp" and Q._poleq(atom, pol) and \
+            ((Q.is_field_load(atom[2], "struct.eventloop_epoll", "current_ev") is not None and atom[3] == evp) or
+             (Q.is_field_load(atom[3], "struct.eventloop_epoll", "current_ev") is not None and atom[2] == evp))
+    okc = bool(cur_stores) and all(Q.must_pass(P, rmf, i.block, is_this) for i in cur_stores)
+    ctx.ob("C14.3 R-GATE", rmf, "current-entry-forgotten-only-when-it-is-the-one-removed", okc,
+           "eventloop_epoll_remove() clears current_ev without the test current_ev == ev: removing some other event from inside a read "
+           "callback switches off the write dispatch of the entry being served, and its edge-triggered writability is lost")
     # the batch is abandoned only to stop the loop: handle_events returns its own two constants, never a callback's verdict
     ABORT, CONT = Q.enum(P, "EL_ABORT_LOOP"), Q.enum(P, "EL_CONTINUE_LOOP")
     other = []
